@@ -485,6 +485,7 @@ func (c20) Run(t *testing.T, tape *core.Tape, rcx *RunCtx) *core.Result {
 	leak, pv := core.Bubble(t, func() {
 		sim = core.NewSim(tape)
 		sim.Record = rcx.Record
+		readReturned := make(chan struct{})                       // closed when uniprot.Read has handed the channels back
 		sim.MaxSteps = 400*len(plain) + 400*len(damaged) + 100000 // backstop only; liveness is judged by progress below
 		// liveness after the last byte: once the reader has returned EOF or its
 		// error, the parser owes at most the remaining entries and its errors;
@@ -529,6 +530,7 @@ func (c20) Run(t *testing.T, tape *core.Tape, rcx *RunCtx) *core.Result {
 					readErr = err
 					started = false
 				}
+				close(readReturned)
 				return
 			}
 			var r io.Reader = rd
@@ -542,46 +544,70 @@ func (c20) Run(t *testing.T, tape *core.Tape, rcx *RunCtx) *core.Result {
 			}
 			uniprot.Parse(r, ce, cx)
 		})
-		sim.AddActor(&core.Actor{
-			Name:    "entries-consumer",
-			Enabled: func() bool { return ce != nil && started && !closedE },
-			Run: func() (string, bool) {
-				select {
-				case e, ok := <-ce:
-					if !ok {
-						closedE = true
-						return "closed", true
-					}
-					gotE = append(gotE, e)
-					if rd != nil && rd.Finished {
-						recvAfterEnd++
-					}
-					return "entry", true
-				default:
-					return "empty", false
+		// consumers are real goroutines blocking in real receives, each receive preceded by
+		// a yield: sequential = one goroutine draining entries until closed and then errors
+		// (the documented usage); concurrent = one goroutine per channel
+		recvEntries := func() {
+			for {
+				sim.Yield("consumer:before-entry-receive")
+				if ce == nil || !started {
+					return
 				}
-			},
-		})
-		sim.AddActor(&core.Actor{
-			Name:    "errors-consumer",
-			Enabled: func() bool { return cx != nil && started && !closedX && (!sequential || closedE) },
-			Run: func() (string, bool) {
-				select {
-				case e, ok := <-cx:
-					if !ok {
-						closedX = true
-						return "closed", true
-					}
-					gotX = append(gotX, e)
-					if rd != nil && rd.Finished {
-						recvAfterEnd++
-					}
-					return "error", true
-				default:
-					return "empty", false
+				e, ok := <-ce
+				if !ok {
+					closedE = true
+					return
 				}
-			},
-		})
+				gotE = append(gotE, e)
+				if rd != nil && rd.Finished {
+					recvAfterEnd++
+				}
+			}
+		}
+		recvErrors := func() {
+			for {
+				sim.Yield("consumer:before-error-receive")
+				if cx == nil || !started {
+					return
+				}
+				e, ok := <-cx
+				if !ok {
+					closedX = true
+					return
+				}
+				gotX = append(gotX, e)
+				if rd != nil && rd.Finished {
+					recvAfterEnd++
+				}
+			}
+		}
+		waitStarted := func() bool {
+			// uniprot.Read hands the channels back to its caller first
+			if useRead {
+				<-readReturned
+			}
+			return started
+		}
+		if sequential {
+			sim.GoConsumer(func() {
+				if !waitStarted() {
+					return
+				}
+				recvEntries()
+				recvErrors()
+			})
+		} else {
+			sim.GoConsumer(func() {
+				if waitStarted() {
+					recvEntries()
+				}
+			})
+			sim.GoConsumer(func() {
+				if waitStarted() {
+					recvErrors()
+				}
+			})
+		}
 		sim.Run()
 	})
 	res.Steps = sim.Steps
